@@ -90,6 +90,134 @@ def _gen(name, xs):
     return g()
 
 
+class _Cursor:
+    """a hand-written one-shot iterator (`__next__`), e.g. a database cursor"""
+    def __init__(self, name, xs):
+        self._name, self._xs, self._i = name, list(xs), 0
+
+    def __iter__(self):
+        return self
+
+    def __next__(self):
+        _note("pull", self._name)
+        if self._i >= len(self._xs):
+            raise StopIteration
+        self._i += 1
+        return self._xs[self._i - 1]
+
+
+class _Seq:
+    """a sequence by the old protocol (`__getitem__` only): `iter(_Seq(...))` is the builtin `iterator` type"""
+    def __init__(self, name, xs):
+        self._name, self._xs = name, list(xs)
+
+    def __getitem__(self, i):
+        _note("pull", self._name)
+        return self._xs[i]
+
+
+def _logged(name):
+    def f(x):
+        _note("pull", name)
+        return x
+    return f
+
+
+import itertools as _it
+
+#: every kind of one-shot iterator user data can arrive as: kind -> (name, items) -> iterator. Where the iterator type
+#: runs user code per item that code logs; every iterator is in addition REGISTERED and measured after construction
+#: (`_advanced`): an iterator that yields fewer items than it was given was advanced, whoever did it and however silently.
+ONE_SHOT_KINDS = {
+    "generator": lambda n, xs: _gen(n, xs),
+    "map": lambda n, xs: map(_logged(n), xs),
+    "filter": lambda n, xs: filter(lambda x: (_logged(n)(x), True)[1], xs),
+    "list_iterator": lambda n, xs: iter(list(xs)),
+    "tuple_iterator": lambda n, xs: iter(tuple(xs)),
+    "reversed": lambda n, xs: reversed(list(xs)),
+    "dict_keyiterator": lambda n, xs: iter({i: x for i, x in enumerate(xs)}),
+    "dict_valueiterator": lambda n, xs: iter({i: x for i, x in enumerate(xs)}.values()),
+    "zip": lambda n, xs: zip(_gen(n, xs)),
+    "enumerate": lambda n, xs: enumerate(_gen(n, xs)),
+    "chain": lambda n, xs: _it.chain(_gen(n, xs[:1]), _gen(n, xs[1:])),
+    "islice": lambda n, xs: _it.islice(_gen(n, xs), 0, len(xs)),
+    "starmap": lambda n, xs: _it.starmap(lambda x: _logged(n)(x), [(x,) for x in xs]),
+    "getitem_iterator": lambda n, xs: iter(_Seq(n, xs)),
+    "callable_sentinel_iterator": lambda n, xs: iter(lambda it=_gen(n, list(xs)): next(it, None), None),
+    "custom_next": lambda n, xs: _Cursor(n, xs),
+}
+_HANDED = []
+
+
+def one_shot(kind, name, xs):
+    xs = list(xs)
+    it = ONE_SHOT_KINDS[kind](name, xs)
+    _HANDED.append((kind, name, it, len(xs)))
+    return it
+
+
+def _advanced():
+    """after construction (log disarmed): which handed-out iterators have lost items"""
+    out = []
+    for kind, name, it, n in _HANDED:
+        try:
+            left = sum(1 for _ in it)
+        except Exception:  # noqa: BLE001
+            left = -1
+        if left != n:
+            out.append(("advanced", f"{kind}:{name}"))
+    del _HANDED[:]
+    return out
+
+
+@symbolic_function
+def takes_any(subject, *more, option=None, **fields):
+    _note("call", "takes_any")
+    return True
+
+
+def signature_calls():
+    """[(name, callable, [call: (callable, c, d) -> condition])]: callables with every kind of parameter, and the calls
+    in which a query variable is written for each kind of parameter. Only calls that Python accepts."""
+    def body(name):
+        def run(*a, **k):
+            _note("call", name)
+            return True
+        return run
+
+    ns = {"symbolic_function": symbolic_function, "Predicate": Predicate}
+    out = []
+    sigs = {
+        "var_keyword": "template, **fields",
+        "only_var_keyword": "**fields",
+        "keyword_only": "template, *, size, colour=3",
+        "keyword_only_and_var_keyword": "template=0, *, size=1, **fields",
+        "var_positional_first": "*items",
+        "var_positional_and_var_keyword": "*items, **fields",
+    }
+    calls = {
+        "var_keyword": [lambda f, c, d: f(1, size=d.size), lambda f, c, d: f(1, size=d.size, colour=c.name),
+                        lambda f, c, d: f(c, size=1), lambda f, c, d: f(template=1, size=d), lambda f, c, d: f(c, size=d)],
+        "only_var_keyword": [lambda f, c, d: f(size=d.size), lambda f, c, d: f(a=1, b=2, size=d), lambda f, c, d: f(x=c, y=d)],
+        "keyword_only": [lambda f, c, d: f(1, size=d.size), lambda f, c, d: f(c, size=1), lambda f, c, d: f(1, size=2, colour=c.name),
+                         lambda f, c, d: f(template=c, size=d, colour=1)],
+        "keyword_only_and_var_keyword": [lambda f, c, d: f(extra=d), lambda f, c, d: f(1, size=2, extra=d.size),
+                                         lambda f, c, d: f(size=c.name), lambda f, c, d: f(c)],
+        "var_positional_first": [lambda f, c, d: f(c), lambda f, c, d: f(d.size), lambda f, c, d: f(c, 1, 2)],
+        "var_positional_and_var_keyword": [lambda f, c, d: f(1, size=d), lambda f, c, d: f(c, size=1), lambda f, c, d: f(size=d.size)],
+    }
+    for name, sig in sigs.items():
+        ns.setdefault("_RUN", {})[name] = body(name)
+        names = ", ".join(p.strip().lstrip("*").split("=")[0] for p in sig.split(",") if p.strip() != "*")
+        exec(f"def fn_{name}({sig}):\n    return _RUN['{name}']({names})\n", ns)
+        out.append(("function_" + name, symbolic_function(ns[f"fn_{name}"]), calls[name]))
+        exec(f"class P_{name}(Predicate):\n"
+             f"    def __init__(self, {sig}):\n        self.seen = ({names},)\n"
+             f"    def __call__(self):\n        return _RUN['{name}'](*self.seen)\n", ns)
+        out.append(("predicate_" + name, ns[f"P_{name}"], calls[name]))
+    return out
+
+
 def _scenarios():
     from krrood.entity_query_language.entity import (let, entity, set_of, and_, or_, not_, contains, in_, exists, for_all,
                                                       flatten, inference)
@@ -210,6 +338,53 @@ def _scenarios():
                 Add(views, inference(LSpecialView)(src=c))
         return q
 
+    # ---- ONE-SHOT ITERATOR KINDS x OPERAND POSITIONS --------------------------------------------------------------
+    # user data handed over as EVERY kind of one-shot iterator (not only generator objects), in every position of the
+    # public API that accepts plain data. Appended after the hand-written scenarios so that `(silent k)` of old corpus
+    # lines keeps its meaning.
+    positions = {
+        "in_": lambda mk, c, d: in_(c.name, mk("names", ["c0", "c1"])),
+        "contains": lambda mk, c, d: contains(mk("sizes", [1, 2]), d.size),
+        "in_object": lambda mk, c, d: in_(d, mk("some_ds", ds_[:2])),
+        "not_in": lambda mk, c, d: not_(in_(c.main.size, mk("main_sizes", [0, 1]))),
+        "flatten": lambda mk, c, d: in_(d.size, flatten(mk("flat", [[1, 2], [3]]))),
+        "eq": lambda mk, c, d: c.drawers == mk("eq", [1, 2]),
+        "function_arg": lambda mk, c, d: is_roomy(c, minimum=mk("fa", [1, 2])),
+        "function_vararg": lambda mk, c, d: takes_any(d, mk("va", [1, 2]), option=mk("vk", [1, 2])),
+        "predicate_arg": lambda mk, c, d: Bigger(d, mk("pa", [1, 2])),
+        "let_domain": lambda mk, c, d: let(LDrawer, mk("dom", ds_)).size > 0,
+        "match_any": lambda mk, c, d: an(entity_matching(LCabinet, mk("cs1", cs_))(drawers=match_any(mk("any", ds_[:2])))),
+        "match_all": lambda mk, c, d: an(entity_matching(LCabinet, mk("cs2", cs_))(drawers=match_all(mk("all", ds_[:2])))),
+        "select_any": lambda mk, c, d: an(entity_matching(LCabinet, mk("cs3", cs_))(drawers=select_any(mk("sel", ds_[:1])))),
+    }
+    ds_: list = []
+    cs_: list = []
+
+    def one_shot_scenario(kind, position):
+        def scenario(hs, ds, cs):
+            ds_[:] = ds
+            cs_[:] = cs
+            c = let(LCabinet, one_shot("generator", "cs", cs)); d = let(LDrawer, one_shot("generator", "ds", ds))
+            built = positions[position](lambda name, xs: one_shot(kind, name, xs), c, d)
+            return built if not isinstance(built, type(c.name == 1)) and hasattr(built, "evaluate") else an(set_of([c, d], built))
+        scenario.__name__ = f"one_shot_{kind}_as_{position}"
+        return scenario
+
+    for kind in ONE_SHOT_KINDS:
+        for position in positions:
+            S.append(one_shot_scenario(kind, position))
+
+    # ---- SIGNATURE KINDS x WHERE THE VARIABLE IS WRITTEN -----------------------------------------------------------
+    # symbolic functions / Predicate subclasses with var-keyword, var-positional, keyword-only parameters; the query
+    # variable arrives through each kind of parameter (alone and together with plain values): nothing may run.
+    for name, target, calls in signature_calls():
+        for j, call in enumerate(calls):
+            def scenario(hs, ds, cs, target=target, call=call):
+                c = let(LCabinet, one_shot("generator", "cs", cs)); d = let(LDrawer, one_shot("generator", "ds", ds))
+                return an(set_of([c, d], call(target, c, d)))
+            scenario.__name__ = f"signature_{name}_call{j}"
+            S.append(scenario)
+
     return S
 
 
@@ -231,6 +406,7 @@ def run(k: int) -> str:
     SymbolGraph()
     hs, ds, cs = _world()
     del LOG[:]
+    del _HANDED[:]
     ARMED[0] = True
     try:
         keep = _S[k % len(_S)](hs, ds, cs)   # noqa: F841  (keep the built objects alive until the log is read)
@@ -238,6 +414,7 @@ def run(k: int) -> str:
         ARMED[0] = False
         return f"exc:{type(e).__name__}:{_S[k % len(_S)].__name__}"
     ARMED[0] = False
+    LOG.extend(_advanced())
     if LOG:
         return "touched:" + _S[k % len(_S)].__name__ + ":" + ",".join(sorted({f"{a}:{b}" for a, b in LOG}))
     return "silent"
